@@ -52,7 +52,7 @@ def sweep_rules(prog, rep):
     loops = [n for n in fi.node.body if isinstance(n, ast.For)]
     lp = loops[0]
     # pairs
-    okp = norm(lp.iter) in ("zip(events[:-1], events[1:])",) and isinstance(lp.target, ast.Tuple) and len(lp.target.elts) == 2
+    okp = norm(lp.iter) in ("zip(events[:-1], events[1:])", "zip(events, events[1:])", "pairwise(events)", "itertools.pairwise(events)") and isinstance(lp.target, ast.Tuple) and len(lp.target.elts) == 2
     pre = [norm(s) for s in fi.node.body if s.lineno < lp.lineno]
     oks = any(t in ("events = sorted(events, key=lambda e: e.timestamp)", "events = sorted(events)", "events.sort(key=lambda e: e.timestamp)") for t in pre)
     rep.check(okp and oks, "THRESHOLD", fi.short, "pairs", "consecutive elements of the list sorted by timestamp", f"pairs are not consecutive elements of the timestamp-sorted list (iter `{norm(lp.iter)}`, sorted: {oks})", fi.loc(lp))
